@@ -9,6 +9,7 @@ mod fam_integr;
 mod fam_panic;
 mod mon;
 mod mon_c15;
+mod mon_c17;
 mod mon_c18;
 mod mon_c20;
 mod rng;
@@ -70,6 +71,7 @@ fn main() {
             let mut rep = mon::Report::default();
             match prop {
                 "C15" => mon_c15::run(&mut rng, n, &mut rep),
+                "C17" => mon_c17::run(&mut rng, n, &mut rep),
                 "C18" => mon_c18::run(&mut rng, n, &mut rep),
                 "C20" => mon_c20::run(&mut rng, n, &mut rep),
                 _ => {
